@@ -4,8 +4,29 @@ from .. import scenario
 TEMPLATES = ['r2', 'r3', 'se2', 'se3', 'se2c', 'se3c', 'r2c', 'mixed', 'se2fix', 'se2alias']
 
 
+def model_check(run, thorough):
+    """Exhaustive bounded model of the system specification: all behaviours over a small universe satisfy the frame conditions."""
+    from .. import tlc
+    props = 'INVARIANT BoundById\nINVARIANT ReportShape\nPROPERTY FixedFrozen\nPROPERTY FlagsRule\nPROPERTY StructureFrozen\nPROPERTY QueriesPure\nPROPERTY RejectedIsFinal\nPROPERTY FirstFixedAfterOpt\n'
+    consts = 'CONSTANTS\n MaxV = 2\n Tokens = {0, 1%s}\n MaxIterMC = %d\n' % (', 2' if thorough else '', 3 if thorough else 2)
+    res = tlc.run('MC_GraphSLAM', 'SPECIFICATION MCSpec\n' + consts + props, coverage=True, timeout=3000)
+    if res.violation:
+        raise tlc.TLCError('GraphSLAM violates %s on the bounded model:\n%s' % (res.violation, res.out[-1500:]))
+    run.add_tlc(res, 'MC_GraphSLAM (exhaustive, MaxV=2)')
+    for act in ('Query', 'SetFixed'):
+        if res.coverage.get('GraphSLAM!' + act, 0) == 0:
+            raise tlc.TLCError('vacuity guard: action %s never taken' % act)
+    res.cleanup()
+    r2 = tlc.run('MC_GraphSLAM', 'SPECIFICATION MutantSpec\nCONSTANTS\n MaxV = 2\n Tokens = {0, 1}\n MaxIterMC = 1\nPROPERTY FixedFrozen\n', timeout=600)
+    r2.cleanup()
+    if not r2.violation:
+        raise tlc.TLCError('vacuity guard: the model mutant (optimizer moving fixed vertices) was NOT caught by FixedFrozen')
+    run.notes['model_mutant_caught'] = True
+
+
 def check(run):
     thorough = run.tier == 'thorough'
+    model_check(run, thorough)
     num = 1500 if thorough else 160
     depth = 51 if thorough else 31
     behaviours = scenario.generate(run, TEMPLATES, run.seed, num, depth, workers=8)
@@ -31,6 +52,10 @@ def check(run):
                    isolated_fixed=any(det.get('isolated_fixed', [])) if det else None)
         if clause in ('opt-report', 'opt-split', 'opt-verbose', 'opt-raised'):
             continue        # the report / stopping rule is C12's property
+        if clause in ('opt-str', 'construct-gradient-index'):
+            # behaviour specified beyond the listed properties (DESIGN.md section 6): recorded, never a verdict of this property
+            run.notes.setdefault('beyond_list_rejections', []).append([sid, seq, clause])
+            continue
         if clause == 'opt-effect' and det.get('nan'):
             continue        # a fixed vertex moved by a NaN solve is C06's property (fault sequences), reported there
         run.violation(key, 'trace rejected at session %d event %d (%s %s): clause %s | template %s' % (sid, seq, ev['op'], ev.get('q', ''), clause, s.template),
